@@ -69,7 +69,7 @@ def run(R: vlib.Run):
               "skipback); non-trivial = at least two blocks or a rejected plan")
     R.trusted += ["Coq 8.16.1 kernel + vm_compute", "tools/py2coq straight-line translator (read_plan arithmetic regenerated from readers.py)",
                   "hand model of the read_plan loop body (Model/Plan.v) and of FileReader (Model/Stream.v), tied by the correspondence run",
-                  "byte-wide samples in the composed theorem; other depths: plan theorem is depth independent, values by correspondence/oracle (+C03 for unpacking)"]
+                  "composed theorems: byte-wide samples (plan_sound) and packed depths 1/2/4 (plan_sound_packed = plan o C03 unpack); 16/32-bit values by oracle (the plan theorem is depth independent)"]
     R.assume += ["files contain a whole number of samples", "the OS returns all available bytes on a regular-file read"]
     R.prove("Props/C01.v")
     R.need(["Model/Plan.vo"])
@@ -78,6 +78,7 @@ def run(R: vlib.Run):
     d = os.path.join(vlib.SCRATCH, f"c01_{os.getpid()}")
     os.makedirs(d, exist_ok=True)
     corr = []   # (nch, files(list of sample-lists), gulp, start, nsamps, skipback, trace) for 8-bit cases
+    corrp = []  # the same for the packed depths (file bytes = packed samples)
     try:
         Nmax = 7 if R.tier == "quick" else 10
         configs = []
@@ -105,6 +106,8 @@ def run(R: vlib.Run):
                             check_case(R, x, nch, N, nbits, splits, gulp, start, nsamps, skipback, tr)
                             if nbits == 8:
                                 corr.append((nch, x, splits, gulp, start, nsamps, skipback, tr))
+                            elif nbits in (1, 2, 4) and (gulp + start + nsamps + skipback) % 3 == 0:
+                                corrp.append((nch, nbits, x, splits, gulp, start, nsamps, skipback, tr))
         # random larger cases
         for _ in range(60 if R.tier == "quick" else 600):
             nbits = rng.choice([1, 2, 4, 8, 8, 16, 32]); nch = NCH[nbits] * rng.choice([1, 2])
@@ -154,6 +157,40 @@ def run(R: vlib.Run):
                 nch, x, splits, gulp, start, nsamps, skipback, tr = sh[bi]
                 R.disagree("Model/Plan.v run_plan and FilReader.read_plan differ",
                            {"nchans": nch, "x": x.tolist(), "splits": splits, "gulp": gulp, "start": start, "nsamps": nsamps, "skipback": skipback,
+                            "impl": (tr[0], [(b[0], b[1], b[2].tolist()) for b in tr[1]])})
+        # ---- correspondence at the packed depths: Model/PlanPacked.v run_plan_packed (plan o generated unpack kernels) ----
+        from sigpyproc.io import bits as _bits
+        R.need(["Model/PlanPacked.vo"])
+        for si in range(0, len(corrp), per):
+            sh = corrp[si:si + per]
+            rows = []
+            for nch, nbits, x, splits, gulp, start, nsamps, skipback, tr in sh:
+                order = _bits.BitsInfo(nbits).bitorder
+                bounds = [0] + list(splits) + [x.shape[0]]
+                fs = "[" + "; ".join("mkfile [224] " + vlib.zlist(_bits.pack(x[bounds[i]:bounds[i + 1]].ravel().astype(np.uint8), nbits, bitorder=order))
+                                     for i in range(len(bounds) - 1)) + "]"
+                bl = "[" + "; ".join(f"({b[0]}, {b[1]}, {vlib.zlist(b[2])})" for b in tr[1]) + "]"
+                rows.append(f"({fs}, ({nch}, {nbits}, {'true' if order[0] == 'b' else 'false'}), ({gulp}, {start}, {nsamps}, {skipback}), ({enc_kind[tr[0]]}, {bl}))")
+            v = ["From Coq Require Import ZArith List Bool.", "Require Import SPP.Base.Rt SPP.Model.Stream SPP.Model.Plan SPP.Model.PlanPacked.", "Import ListNotations.", "Open Scope Z_scope.",
+                 "Definition eqb3 (a b : Z * Z * list Z) : bool := let '(n1, i1, l1) := a in let '(n2, i2, l2) := b in (n1 =? n2) && (i1 =? i2) && list_eqb l1 l2.",
+                 "Fixpoint alleq (a b : list (Z * Z * list Z)) : bool := match a, b with [], [] => true | x :: r, y :: s => eqb3 x y && alleq r s | _, _ => false end.",
+                 "Definition cases : list (list file * (Z * Z * bool) * (Z * Z * Z * Z) * (Z * list (Z * Z * list Z))) := [", ";\n".join(rows), "].",
+                 "Definition ok (c : list file * (Z * Z * bool) * (Z * Z * Z * Z) * (Z * list (Z * Z * list Z))) : bool :=",
+                 "  let '(fs, (nch, nbits, big), (gulp, start, nsamps, skipback), (k, bl)) := c in",
+                 "  let '(k', bl') := trace_enc (run_plan_packed fs nch nbits big gulp start nsamps skipback (fun _ => 7)) in (k =? k') && alleq bl bl'.",
+                 "Definition idx := map fst (filter (fun p => negb (ok (snd p))) (combine (seq 0 (length cases)) cases)).",
+                 "Eval vm_compute in (length cases, idx)."]
+            rc, outp = vlib.coq_run(f"c01p_{si // per}", "\n".join(v), timeout=600)
+            vals = vlib.parse_eval(outp)
+            if rc != 0 or not vals:
+                R.red.append("correspondence: Corr/c01p did not evaluate: " + outp[-400:])
+                continue
+            nums = [int(z) for z in re.findall(r"(\d+)%nat", vals[0])]
+            R.extra_cov["packed_traces_validated_against_impl"] = R.extra_cov.get("packed_traces_validated_against_impl", 0) + (nums[0] if nums else 0)
+            for bi in nums[1:4]:
+                nch, nbits, x, splits, gulp, start, nsamps, skipback, tr = sh[bi]
+                R.disagree("Model/PlanPacked.v run_plan_packed and FilReader.read_plan differ",
+                           {"nchans": nch, "nbits": nbits, "x": x.tolist(), "splits": splits, "gulp": gulp, "start": start, "nsamps": nsamps, "skipback": skipback,
                             "impl": (tr[0], [(b[0], b[1], b[2].tolist()) for b in tr[1]])})
     finally:
         shutil.rmtree(d, ignore_errors=True)
